@@ -20,7 +20,6 @@ COMMON_ASSUMPTIONS = [
 EXTRA_OVERLAY = {}
 
 NOT_REACHED = {
-    "C20": "not reached: the engine has no goroutine scheduler (go statements, blocking channel operations and select are unsupported), so neither interleavings of the interrupt trigger with push/pop nor races on ctxstack.cancelFns can be executed (DESIGN §6)",
 }
 
 import os, re, subprocess
@@ -468,4 +467,21 @@ PROPS["C08"] = {
     "assumptions": ["the reference semantics of the jq primitives are written in the harness; gojq's own code (funcLength, funcIndex2, clamping, ...) is NOT executed: that the enumerated JQValue methods are all the ways the VM observes a value is an argument from gojq's structure, not a solver result",
                     "documented differences encoded: struct keys compared as a set (input order), missing names give null"],
     "outside": ["queries as such (the jq VM), regexp/string built-ins, tojson text, Sym/Actual selection (ScalarValue)"],
+}
+
+
+PROPS["C20"] = {
+    "level": "model_checking",
+    "race": True,
+    "explanation": "the real ctxstack.Stack with its trigger goroutine (shaped like the one interp.New installs), the real context.WithCancel (interpreted) and iox.CtxWriter: goroutines run under the engine's deterministic baton scheduler, the choice of the next thread at every scheduling point (channel, select, mutex, atomic operations and every load/store made by ctxstack's functions) is an exploration decision, a vector-clock happens-before detector flags unordered conflicting accesses. Sequential histories against a reference stack model; interleavings under a pre-emption bound for panics, deadlocks and data races",
+    "wall_quick": 900, "wall_thorough": 7200,
+    "harnesses": [
+        {"entry": "internal/ctxstack.VerifCtxStackSequential", "group": "seq", "clause": "every sequence of up to 4 operations (push, pop innermost, interrupt, stop), trigger goroutine quiescent after each: exactly the contexts the specification cancels are cancelled", "bounds": {"operations": 4, "depth": "<= 3"}},
+        {"entry": "internal/ctxstack.VerifCtxStackSequentialLong", "group": "seq", "tier": "thorough", "clause": "6 operations", "bounds": {"operations": 6}},
+        {"entry": "internal/ctxstack.VerifCtxStackInterleaved", "group": "ilv", "clause": "up to 3 operations racing with the trigger goroutine: no panic, no deadlock, no data race, and no level is cancelled that was never the innermost one when an interrupt could be delivered", "bounds": {"operations": 3, "preemptions": 1}},
+        {"entry": "internal/ctxstack.VerifCtxStackInterleaved2", "group": "ilv", "tier": "thorough", "clause": "same with 2 pre-emptions", "bounds": {"operations": 3, "preemptions": 2}},
+        {"entry": "internal/iox.VerifCtxWriter", "clause": "output written after cancellation is refused; before, it passes through unchanged", "bounds": {"data_bytes": 3}},
+    ],
+    "assumptions": ["sequential consistency (no weak memory effects)", "the data domain is trivial here: the solver's role is only to enumerate schedule and operation choices within the bound; races are confirmed natively by go test -race on the same operation sequence"],
+    "outside": ["real signal delivery (cli.go)", "the REPL jq code", "more than 2 threads", "ctxreadseeker"],
 }
